@@ -684,8 +684,8 @@ fn render_svg(args: &Args, tree: &usvg::Tree) -> Result<tiny_skia::Pixmap, Strin
             .fit_to_size(bbox.size().to_int_size())
             .ok_or_else(|| "target size is zero".to_string())?;
 
-        // Unwrap is safe, because `size` is already valid.
-        let mut pixmap = tiny_skia::Pixmap::new(size.width(), size.height()).unwrap();
+        let mut pixmap = tiny_skia::Pixmap::new(size.width(), size.height())
+            .ok_or_else(|| "target size is too large".to_string())?;
 
         if !args.export_area_page {
             if let Some(background) = args.background {
@@ -705,8 +705,8 @@ fn render_svg(args: &Args, tree: &usvg::Tree) -> Result<tiny_skia::Pixmap, Strin
                 .fit_to_size(tree.size().to_int_size())
                 .ok_or_else(|| "target size is zero".to_string())?;
 
-            // Unwrap is safe, because `size` is already valid.
-            let mut page_pixmap = tiny_skia::Pixmap::new(size.width(), size.height()).unwrap();
+            let mut page_pixmap = tiny_skia::Pixmap::new(size.width(), size.height())
+                .ok_or_else(|| "target size is too large".to_string())?;
 
             if let Some(background) = args.background {
                 page_pixmap.fill(svg_to_skia_color(background));
@@ -730,8 +730,8 @@ fn render_svg(args: &Args, tree: &usvg::Tree) -> Result<tiny_skia::Pixmap, Strin
             .fit_to_size(tree.size().to_int_size())
             .ok_or_else(|| "target size is zero".to_string())?;
 
-        // Unwrap is safe, because `size` is already valid.
-        let mut pixmap = tiny_skia::Pixmap::new(size.width(), size.height()).unwrap();
+        let mut pixmap = tiny_skia::Pixmap::new(size.width(), size.height())
+            .ok_or_else(|| "target size is too large".to_string())?;
 
         if let Some(background) = args.background {
             pixmap.fill(svg_to_skia_color(background));
